@@ -88,3 +88,26 @@ package ice
 //@   site call addCandidate#1 assert hands-over-the-reference-just-taken: arg3.payload == conn.payload && outstanding == 1 && conn.gClosed == 0
 //@   site call addCandidate#1 ghost after outstanding := outstanding - ite(result == nil, 1, 0)
 //@   ensures every-mux-reference-is-closed-or-owned: outstanding == 0
+
+// Mapped server-reflexive candidates (address rewrite): one socket per external
+// address; each is closed once or handed to a started candidate before the next is
+// opened, and the first one is never left over (there is always at least one address).
+//@ func (*Agent).resolveSrflxAddresses
+//@   props C09 C19
+//@   opt nosafety
+//@   ensures usable-result-has-at-least-one-address: result1 ==> len(result0) >= 1
+
+//@ func (*Agent).gatherCandidatesSrflxMapped$1
+//@   props C09
+//@   opt nosafety
+//@   ghostvar outstanding int = 0
+//@   loop 1 invariant first-socket-is-pending-then-none: outstanding == ite(rangeindex == 0 - 1, 1, 0) && rangeindex + 1 <= len(addresses)
+//@   loop 1 invariant first-socket-still-open-and-unowned: rangeindex == 0 - 1 ==> conn.gClosed == 0 && !conn.gHeld && conn != nil && conn.payload != nil
+//@   site call listenUDPInPortRange#1 ghost after outstanding := outstanding + ite(result1 == nil, 1, 0)
+//@   site call listenUDPInPortRange#2 assert previous-socket-was-released-first: outstanding == 0
+//@   site call listenUDPInPortRange#2 ghost after outstanding := outstanding + ite(result1 == nil, 1, 0)
+//@   site call closeConnAndLog#0 assert closes-only-the-pending-socket: arg0 != nil && arg0.payload != nil ==> outstanding == 1
+//@   site call closeConnAndLog#0 ghost after outstanding := outstanding - ite(arg0 != nil && arg0.payload != nil, 1, 0)
+//@   site call addCandidate#1 assert hands-over-the-pending-socket: arg3.payload == currentConn.payload && outstanding == 1 && currentConn.gClosed == 0
+//@   site call addCandidate#1 ghost after outstanding := outstanding - ite(result == nil, 1, 0)
+//@   ensures every-socket-is-closed-once-or-owned-by-a-candidate: outstanding == 0
